@@ -237,6 +237,9 @@ def run(ctx):
             if not inp.errors:
                 ctx.count("inputs_without_error")
                 continue
+            ctx.count("erroneous_inputs_%s_costs_builder_order_%s" % (
+                "unit" if set(r.cost_by_tidx) <= {1} else "nonunit",
+                {True: "term_costs_then_recoverer", False: "recoverer_then_term_costs", None: "unreported"}[inp.costs_first]))
             late = inp.ms >= 0.8 * r.budget
             if late:
                 ctx.count("budget_possibly_exhausted(not compared)")
@@ -408,6 +411,7 @@ def run(ctx):
                             "whose reference set was computed (iterative deepening, time-capped; capped errors are counted, only "
                             "the direct checks apply to them); non-trivial = the error carries at least one repair sequence; distinct "
                             "by (grammar text, costs, token list, error index).")
+    ctx.coverage["builder_order_rule"] = repair.BUILDER_ORDER_RULE + "; both orders also carry the single-shot harness lexer (a second Lexer::iter call on one lexer panics)"
     ctx.assumptions += [
         "completeness/minimality of the search MIRROR is proved (C06_dijkstra_complete, C06_reported_cost_minimal for every table; "
         "C06_search_complete_bounded on reduce-confluent tables; C06_validated_search_complete on validated tables, reference at every "
